@@ -44,7 +44,7 @@
 EXTENDS Integers, Sequences, FiniteSets, TLC, Json, SequencesExt
 
 CONSTANTS InputFile,    \* absolute path of the generated JSON input
-          Mode,         \* "index" | "window" | "parse"
+          Mode,         \* "index" (C30) | "candle" (C31: window cases and parse cases)
           Deviations    \* subset of the names above: the known behaviour of the unchanged tree
 
 VARIABLE c              \* the case under consideration (a record; shape depends on Mode)
@@ -240,7 +240,7 @@ WinAnchors(z) == WinAnchors0(z)
                  \cup {AbsOfLocal(z, MonthStartLocal(y, 2) + 28 * DaySec) : y \in {y \in Range(Years) : IsLeap(y)}}
                  \cup {TruncGo(a, "W", 1) : a \in WinAnchors0(z)} \cup {TruncGo(a, "W", 1) + 7 * DaySec : a \in WinAnchors0(z)}
                  \cup {AbsOfLocal(z, MidnightOf(Local(z, a)) - (AbsDay(Local(z, a)) % 7) * DaySec) : a \in WinAnchors0(z)}
-WinDists == {0, 1, 59, 60, 1799, 1800, 3599, 3600, 7199, 7200, 32400, 86399, 86400, 90000}
+WinDists == Range(Input.wdists)
 WinGridSet(z) == {s \in (UNION {{a + d, a - d, a - d - 1} : a \in WinAnchors(z), d \in WinDists})
                            \cup {Input.wstride_s0 + i * Input.wstride_step : i \in 0..(Input.wstride_n - 1)} :
                     s >= Input.wlo /\ s < Input.whi}
@@ -296,7 +296,7 @@ PrStable(m, sfx, devs) ==
                  /\ TfFromDuration(back.dur, devs) = p
 \* the timeframe chosen for querying a candle duration is a supported one and divides the duration
 PrQueryable(m, sfx) == LET cd == CdFromString(m, sfx) IN
-                       cd = Nil \/ ((\E i \in TFI : Timeframes[i].name = Queryable(cd)) /\ cd.dur % TfSecOfName(Queryable(cd)) = 0)
+                       cd = Nil \/ LET q == Queryable(cd) IN (\E i \in TFI : Timeframes[i].name = q) /\ cd.dur % TfSecOfName(q) = 0
 PrCdStable(m, sfx) == LET cd == CdFromString(m, sfx) IN cd = Nil \/ CdFromString(cd.m, cd.sfx) = cd
 PrHits(m, sfx) == LET tf == TfFromString(m, sfx) IN
                   IF tf = Nil THEN {} ELSE {d \in Deviations \cap {"PrintDropsRemainder", "PrintNilAboveYear"} :
@@ -309,39 +309,48 @@ PrHits(m, sfx) == LET tf == TfFromString(m, sfx) IN
 Block == Input.block
 Min2(a, b) == IF a < b THEN a ELSE b
 Max2(a, b) == IF a > b THEN a ELSE b
-\* instants around which sub-minute timeframes are enumerated: year edges, leap day, offset changes
+\* instants around which the fine timeframes are enumerated: year edges, leap day, offset changes
 Anchors(z, y) == {YearStartAbs(z, y), YearStartAbs(z, y + 1)}
                  \cup (IF IsLeap(y) THEN {AbsOfLocal(z, MonthStartLocal(y, 2) + 28 * DaySec), AbsOfLocal(z, MonthStartLocal(y, 3))} ELSE {})
                  \cup {Tab(z)[i][1] : i \in 2..Len(Tab(z))}
 AnchorTab == TLCGet(2)
-Split(lo, hi) == {<<Max2(lo, b * Block), Min2(hi, (b + 1) * Block - 1)>> : b \in (lo \div Block)..(hi \div Block)}
+\* a run <<lo, hi, step>> is the chain of interval ordinals lo, lo + step, ... <= hi
+Split(lo, hi) == {<<Max2(lo, b * Block), Min2(hi, (b + 1) * Block - 1), 1>> : b \in (lo \div Block)..(hi \div Block)}
+StridePieces == 8
 Runs(z, i, y) ==
-  LET tf == TfSec(i)  n == NIntervals(z, tf, y)  ys == YearStartAbs(z, y)  W == Input.halfwindow IN
-  IF Timeframes[i].full
-  THEN Split(0, n - 1)
+  LET tf == TfSec(i)  n == NIntervals(z, tf, y)  ys == YearStartAbs(z, y)  W == Timeframes[i].hw
+      sm == Timeframes[i].stride_m  sr == Timeframes[i].stride_r
+      J  == (n - 1 - sr) \div sm                                    \* stride points sr + j * sm, j \in 0..J
+      per == J \div StridePieces + 1 IN
+  IF <<z, y>> \in Range(Timeframes[i].full)
+  THEN Split(0, n - 1)                                                        \* every interval of the year
   ELSE (UNION {Split(Max2(0, (a - W - ys) \div tf), Min2(n - 1, (a + W - ys) \div tf)) :
                   a \in {a \in AnchorTab[z][y] : a + W >= ys /\ (a - W - ys) \div tf <= n - 1}})
-       \cup {<<k, k>> : k \in {Timeframes[i].stride_r + j * Timeframes[i].stride_m : j \in 0..((n - 1) \div Timeframes[i].stride_m)} \cap 0..(n - 1)}
-IndexHeads == UNION {UNION {UNION {{[z |-> z, tf |-> i, y |-> y, k |-> r[1], hi |-> r[2]] : r \in Runs(z, i, y)}
+       \cup {<<sr + (q * per) * sm, sr + Min2(J, (q + 1) * per - 1) * sm, sm>> : q \in {q \in 0..(StridePieces - 1) : q * per <= J}}
+IndexHeads == UNION {UNION {UNION {{[z |-> z, tf |-> i, y |-> y, k |-> r[1], hi |-> r[2], st |-> r[3]] : r \in Runs(z, i, y)}
                                     : y \in Range(Years)} : i \in TFI} : z \in ZI}
-IndexNext == c.k < c.hi /\ c' = [c EXCEPT !.k = @ + 1]
+IndexNext == c.k + c.st <= c.hi /\ c' = [c EXCEPT !.k = @ + c.st]
 
 \* ---- window mode: (zone, suffix, multiplier) x grid position ----
 Cds == Input.cds                                                \* <<[sfx, m]>>
 WindowHeads == {[z |-> z, sfx |-> Cds[i].sfx, m |-> Cds[i].m, j |-> 1] : z \in ZI, i \in 1..Len(Cds)}
 WindowNext == c.j < Len(WinGrid[c.z]) /\ c' = [c EXCEPT !.j = @ + 1]
 
-\* ---- parse mode: every <multiplier><suffix> text, including the S and T spellings ----
-ParseHeads == {[m |-> Input.strs[i].m, sfx |-> Input.strs[i].sfx] : i \in 1..Len(Input.strs)}
+\* ---- parse mode: every <multiplier><suffix> text of the input list (including the S and T spellings), in chains of 16 ----
+ParseHeads == {[i |-> i] : i \in {i \in 1..Len(Input.strs) : i % 16 = 1}}
+ParseNext == c.i % 16 # 0 /\ c.i < Len(Input.strs) /\ c' = [c EXCEPT !.i = @ + 1]
 
 ASSUME /\ TLCSet(1, JsonDeserialize(InputFile))
        /\ TLCSet(4, [z \in ZI |-> [y \in YsYears |-> YearStartDate(z, y)]])
        /\ TLCSet(2, [z \in ZI |-> [y \in Range(Years) |-> Anchors(z, y)]])
-       /\ TLCSet(3, IF Mode = "window" THEN [z \in ZI |-> SetToSortSeq(WinGridSet(z), LAMBDA a, b : a < b)] ELSE <<>>)
+       /\ TLCSet(3, IF Mode = "candle" THEN [z \in ZI |-> SetToSortSeq(WinGridSet(z), LAMBDA a, b : a < b)] ELSE <<>>)
 
-Init == c \in (IF Mode = "index" THEN IndexHeads ELSE IF Mode = "window" THEN WindowHeads ELSE ParseHeads)
+IsWindowCase == Mode = "candle" /\ "j" \in DOMAIN c
+IsParseCase  == Mode = "candle" /\ "i" \in DOMAIN c
+Init == c \in (IF Mode = "index" THEN IndexHeads ELSE WindowHeads \cup ParseHeads)
 Next == \/ (Mode = "index" /\ IndexNext)
-        \/ (Mode = "window" /\ WindowNext)
+        \/ (IsWindowCase /\ WindowNext)
+        \/ (IsParseCase /\ ParseNext)
 Spec == Init /\ [][Next]_c
 
 (***************************************************************************)
@@ -366,7 +375,7 @@ IndexInv ==
 FileSizeZoneIndependent == Mode = "index" => \A zl \in ZI : YearLen(zl, c.y) = DaysInYear(c.y) * DaySec
 
 WindowInv ==
-  Mode = "window" =>
+  IsWindowCase =>
   LET z == c.z  sfx == c.sfx  m == c.m  s == WinGrid[z][c.j]
       oP == WinOut(z, sfx, m, s, {})
       oD == IF DevsOf(sfx) = {} THEN oP ELSE WinOut(z, sfx, m, s, Deviations)
@@ -380,14 +389,17 @@ WindowInv ==
                                          okd |-> WinProp(s, oD), hit |-> hits])>>))
 
 ParseInv ==
-  Mode = "parse" =>
-  LET m == c.m  sfx == c.sfx  tf == TfFromString(m, sfx)  cd == CdFromString(m, sfx) IN
+  IsParseCase =>
+  LET m == Input.strs[c.i].m  sfx == Input.strs[c.i].sfx
+      tf == TfFromString(m, sfx)  cd == CdFromString(m, sfx)
+      pp == IF tf = Nil THEN Nil ELSE TfFromDuration(tf.dur, {})
+      pd == IF tf = Nil THEN Nil ELSE TfFromDuration(tf.dur, Deviations)
+      hits == PrHits(m, sfx)
+      okd == PrStable(m, sfx, Deviations) IN
       /\ PrStable(m, sfx, {}) /\ PrQueryable(m, sfx) /\ PrCdStable(m, sfx)     \* ParsePure
-      /\ (PrStable(m, sfx, Deviations) \/ PrHits(m, sfx) # {})                 \* ParseKnownOnly
-      /\ ((PrHits(m, sfx) = {} /\ tf # Nil) => TfFromDuration(tf.dur, Deviations) = TfFromDuration(tf.dur, {}))
+      /\ (okd \/ hits # {})                                                    \* ParseKnownOnly
+      /\ (hits = {} => pd = pp)                                                \* DeviationsExplainAll
       /\ PrintT(<<"PR", ToJson([m |-> m, sfx |-> sfx, tf |-> tf, cd |-> cd,
                                 q |-> IF cd = Nil THEN "" ELSE Queryable(cd),
-                                pp |-> IF tf = Nil THEN Nil ELSE TfFromDuration(tf.dur, {}),
-                                pd |-> IF tf = Nil THEN Nil ELSE TfFromDuration(tf.dur, Deviations),
-                                okd |-> PrStable(m, sfx, Deviations), hit |-> PrHits(m, sfx)])>>)
+                                pp |-> pp, pd |-> pd, okd |-> okd, hit |-> hits])>>)
 =============================================================================
